@@ -56,7 +56,7 @@ def check(seed_dir, props=None):
         from concurrent.futures import ThreadPoolExecutor
 
         def one(p):
-            code = ("import sys, json; sys.path.insert(0, %r); from check import run_property; rep = run_property(%r, 'quick', %r); "
+            code = ("import sys, json; sys.path.insert(0, %r); from check import decide_property; rep = decide_property(%r, 'quick', %r); "
                     "r, u = rep.new_refuted(), rep.undecided(); "
                     "print(json.dumps({'exit': 1 if r else (2 if (u or rep.errors) else 0), 'first': (f'{r[0].rule} {r[0].where}: {r[0].desc[:120]} -- {r[0].detail[:200]}' if r else "
                     "(f'{u[0].rule} {u[0].where}: {u[0].desc[:120]} -- {u[0].detail[:120]}' if u else (str(rep.errors[0])[:200] if rep.errors else ''))), 'n_refuted': len(r)}))") % (VERIF, p, wt)
